@@ -187,7 +187,7 @@ theorem C06_body (hs : List (String × String)) (m : MethodSpec)
     (c : Cooked) (d : PathDir) (subs : List PathSub) (args : Args)
     (ok : MethodOK m) (aok : ArgsOK m args) (h : CookedFor m c d subs) (hv : m.verb.hasBody = true) :
     ∃ r, send (planOf hs m.name c d subs) args = .sent r ∧
-      r.body = (m.params.find? isStructAny).map (·.name) ∧ r.query.getD [] = [] := by
+      r.body = (m.params.find? isStructParam).map (·.name) ∧ r.query.getD [] = [] := by
   obtain ⟨r, h1, _, _, h4, h5, _, _⟩ := send_eq_spec hs m c d subs args ok aok h
   refine ⟨r, h1, ?_, ?_⟩
   · rw [h5]; simp [specBody, hv]
@@ -199,7 +199,7 @@ theorem C06_body_facts (hs : List (String × String)) (m : MethodSpec)
     (c : Cooked) (d : PathDir) (subs : List PathSub) (args : Args)
     (ok : MethodOK m) (aok : ArgsOK m args) (h : CookedFor m c d subs) :
     ∃ r, send (planOf hs m.name c d subs) args = .sent r ∧
-      r.body = (if Facts.restBodyVerbs.contains m.verb.upper then (m.params.find? isStructAny).map (·.name) else none) := by
+      r.body = (if Facts.restBodyVerbs.contains m.verb.upper then (m.params.find? isStructParam).map (·.name) else none) := by
   obtain ⟨r, h1, _, _, _, h5, _, _⟩ := send_eq_spec hs m c d subs args ok aok h
   refine ⟨r, h1, ?_⟩
   rw [h5, specBody, C06_facts_bodyVerbs m.verb]
@@ -237,13 +237,13 @@ theorem C06_one_request (pl : Plan) (args : Args) :
 /-- every method of an interface the driver puts in region WF satisfies `MethodOK` -/
 theorem C06_wf_methodOK (i : IfaceSpec) (calls : List Call) (h : region i calls = "WF")
     (m : MethodSpec) (hm : m ∈ i.methods) : MethodOK m := by
-  obtain ⟨hs, _, htwo, hqual, helse, _, _, _⟩ := region_wf i calls h
+  obtain ⟨hs, _, _⟩ := region_wf i calls h
   simp only [structOk, shapeOk, Bool.and_eq_true, List.all_eq_true] at hs
   have hmo := hs.1.1.1 m hm
   simp only [methodShapeOk, Bool.and_eq_true, distinct, decide_eq_true_eq, List.all_eq_true,
     Bool.not_eq_true', bne_iff_ne, ne_eq] at hmo
-  obtain ⟨⟨⟨⟨⟨⟨⟨⟨⟨⟨hnames, hctx⟩, _⟩, _⟩, hak⟩, _⟩, hav⟩, hclean⟩, hph⟩, hfields⟩, hqb⟩ := hmo
-  refine ⟨hnames, hctx, hak, ?_, ?_, ?_, ?_, ?_, ?_, ?_, ?_, ?_⟩
+  obtain ⟨⟨⟨⟨⟨⟨⟨⟨⟨hnames, hctx⟩, _⟩, _⟩, hak⟩, _⟩, hav⟩, hclean⟩, hph⟩, hfields⟩ := hmo
+  refine ⟨hnames, hctx, hak, ?_, ?_, ?_, ?_, ?_, ?_⟩
   · intro kv hkv; simpa using hav kv hkv
   · -- pathClean gives token cleanliness
     simp only [pathClean, Bool.and_eq_true, List.all_eq_true] at hclean
@@ -263,60 +263,24 @@ theorem C06_wf_methodOK (i : IfaceSpec) (calls : List Call) (h : region i calls 
     exact List.mem_map.2 ⟨q, hq, hname⟩
   · intro p hp; exact (hfields p hp).1
   · intro p hp f hf; simpa using (hfields p hp).2 f hf
-  · intro p hp hk
-    cases hv : m.verb.hasBody with
-    | true =>
-      have : m.params.any isQualOther = true := by
-        rw [List.any_eq_true]; exact ⟨p, hp, by simp [isQualOther, hk]⟩
-      simp [hv, this] at hqb
-    | false =>
-      have : F_qualScalar i = true := by
-        simp only [F_qualScalar, List.any_eq_true, Bool.and_eq_true, Bool.not_eq_true']
-        exact ⟨m, hm, hv, p, hp, by simp [isQualOther, hk]⟩
-      rw [hqual] at this; cases this
-  · intro p hp
-    cases he : isElsewhere p with
-    | false => rfl
-    | true =>
-      have : F_structElsewhere i = true := by
-        simp only [F_structElsewhere, List.any_eq_true]
-        exact ⟨m, hm, p, hp, he⟩
-      rw [helse] at this; cases this
-  · intro hv
-    cases hl : decide ((m.params.filter isDictParam).length ≥ 2) with
-    | false => simp only [decide_eq_false_iff_not] at hl; omega
-    | true =>
-      have : F_twoDicts i = true := by
-        simp only [F_twoDicts, List.any_eq_true, Bool.and_eq_true, Bool.not_eq_true']
-        exact ⟨m, hm, hv, hl⟩
-      rw [htwo] at this; cases this
 
 /-- every call of such an interface satisfies `ArgsOK` -/
 theorem C06_wf_argsOK (i : IfaceSpec) (calls : List Call) (h : region i calls = "WF")
     (cl : Call) (hc : cl ∈ calls) (m : MethodSpec) (hm : findMethod i cl.method = some m) :
     ArgsOK m cl.args := by
-  obtain ⟨_, _, _, _, _, _, hnil, hbr⟩ := region_wf i calls h
+  obtain ⟨_, _, hnil⟩ := region_wf i calls h
   constructor
-  · intro hv p hp hsp hfs v ha
-    have : F_nilStructDeref i calls = true := by
-      simp only [F_nilStructDeref, List.any_eq_true]
-      refine ⟨cl, hc, ?_⟩
-      simp only [hm, hv, Bool.not_false, Bool.true_and, List.any_eq_true, Bool.and_eq_true]
-      refine ⟨p, hp, ⟨hsp, ?_⟩, ?_⟩
-      · cases hf : fieldsOf p with
-        | nil => exact absurd hf hfs
-        | cons a as => rfl
-      · simp [ha]
-    rw [hnil] at this; cases this
-  · intro n hn
-    apply noBrace_of_contains
-    cases hcn : (argText cl.args (resolve m (String.ofList n))).contains '{' with
-    | false => rfl
-    | true =>
-      have : F_pathArgBrace i calls = true := by
-        simp only [F_pathArgBrace, List.any_eq_true]
-        exact ⟨cl, hc, by simp only [hm, List.any_eq_true]; exact ⟨n, hn, hcn⟩⟩
-      rw [hbr] at this; cases this
+  intro hv p hp hsp hfs v ha
+  have : F_nilStructDeref i calls = true := by
+    simp only [F_nilStructDeref, List.any_eq_true]
+    refine ⟨cl, hc, ?_⟩
+    simp only [hm, hv, Bool.not_false, Bool.true_and, List.any_eq_true, Bool.and_eq_true]
+    refine ⟨p, hp, ⟨hsp, ?_⟩, ?_⟩
+    · cases hf : fieldsOf p with
+      | nil => exact absurd hf hfs
+      | cons a as => rfl
+    · simp [ha]
+  rw [hnil] at this; cases this
 
 /-! ## Finding regions: concrete witnesses on which the unchanged code violates the property -/
 
@@ -334,49 +298,56 @@ theorem C06_F_ptrDict_witness :
     (callSpec wPtrDictS "A" [("m", .dict [("k", ['v'])])]).isSome = true := by
   decide
 
-/-- Q6: `A(ctx, extra, more map[string]string)` on DELETE: `extra` never reaches the query -/
+/-! ### repaired in /repo: the former witnesses now satisfy the property (model = specification) -/
+
+/-- was F_twoDicts (repaired by 9050c53): both maps reach the query -/
 def wTwoI : Iface := ⟨[], [⟨"A", "shoot: Delete(\"/a\")\n".toList, [pCtx, ⟨"extra", .dict, false⟩, ⟨"more", .dict, false⟩]⟩]⟩
 def wTwoS : IfaceSpec := ⟨[], [⟨"A", .delete, "/a".toList, [], [pCtx, ⟨"extra", .dict, false⟩, ⟨"more", .dict, false⟩]⟩]⟩
 def wTwoArgs : Args := [("ctx", .ctx "t"), ("extra", .dict [("x", ['1'])]), ("more", .dict [("y", ['2'])])]
 
-theorem C06_F_twoDicts_witness :
-    region wTwoS [⟨"A", wTwoArgs⟩] = "F_twoDicts" ∧
-    (callModel wTwoI "A" wTwoArgs).isSome = true ∧ callModel wTwoI "A" wTwoArgs ≠ callSpec wTwoS "A" wTwoArgs := by
+theorem C06_twoDicts_fixed :
+    region wTwoS [⟨"A", wTwoArgs⟩] = "WF" ∧ callModel wTwoI "A" wTwoArgs = callSpec wTwoS "A" wTwoArgs ∧
+    callModel wTwoI "A" wTwoArgs = some (.sent ⟨"DELETE", "/a".toList, some [("x", ['1']), ("y", ['2'])], none, [], some "t"⟩) := by
   decide
 
-/-- Q7: `A(ctx, wait time.Duration)` on GET: `wait` never reaches the query -/
+/-- was F_qualScalar (repaired by d8a8443): `wait time.Duration` travels as `wait=1.5s` -/
 def wQualI : Iface := ⟨[], [⟨"A", "shoot: Get(\"/a\")\n".toList, [pCtx, ⟨"wait", .qualOther, false⟩]⟩]⟩
 def wQualS : IfaceSpec := ⟨[], [⟨"A", .get, "/a".toList, [], [pCtx, ⟨"wait", .qualOther, false⟩]⟩]⟩
 def wQualArgs : Args := [("ctx", .ctx "t"), ("wait", .scalar (.txt "1.5s".toList))]
 
-theorem C06_F_qualScalar_witness :
-    region wQualS [⟨"A", wQualArgs⟩] = "F_qualScalar" ∧
-    (callModel wQualI "A" wQualArgs).isSome = true ∧ callModel wQualI "A" wQualArgs ≠ callSpec wQualS "A" wQualArgs := by
+theorem C06_qualScalar_fixed :
+    region wQualS [⟨"A", wQualArgs⟩] = "WF" ∧ callModel wQualI "A" wQualArgs = callSpec wQualS "A" wQualArgs := by
   decide
 
-/-- Q9: `A(ctx, req Req)` on GET with `type Req struct{ Name string; N int }` declared in another file of
-    the package: one parameter `req={x 7}` instead of `name=x&n=7` -/
-def wElseP : Param := ⟨"req", .structElsewhere [⟨"Name", true, false, ""⟩, ⟨"N", true, false, ""⟩], false⟩
-def wElseI : Iface := ⟨[], [⟨"A", "shoot: Get(\"/a\")\n".toList, [pCtx, wElseP]⟩]⟩
-def wElseS : IfaceSpec := ⟨[], [⟨"A", .get, "/a".toList, [], [pCtx, wElseP]⟩]⟩
-def wElseArgs : Args := [("ctx", .ctx "t"), ("req", .structV false [("Name", .txt ['x']), ("N", .txt ['7'])] "{x 7}".toList)]
-
-theorem C06_F_structElsewhere_witness :
-    region wElseS [⟨"A", wElseArgs⟩] = "F_structElsewhere" ∧
-    callModel wElseI "A" wElseArgs = some (.sent ⟨"GET", "/a".toList, some [("req", "{x 7}".toList)], none,
-      [("Accept", "application/json")], some "t"⟩) ∧
-    callSpec wElseS "A" wElseArgs = some (.sent ⟨"GET", "/a".toList, some [("name", ['x']), ("n", ['7'])], none,
-      [("Accept", "application/json")], some "t"⟩) := by
-  decide
-
-/-- Q10: `//shoot: headers={Accept: */*}`: the client sends `Accept: *` -/
+/-- was F_headerValue (repaired by 98e0bbb): `{Accept: */*}` is sent as `Accept: */*` -/
 def wHdrI : Iface := ⟨"shoot: headers={Accept: */*}\n".toList, [⟨"A", "shoot: Delete(\"/a\")\n".toList, []⟩]⟩
 def wHdrS : IfaceSpec := ⟨[("Accept", "*/*")], [⟨"A", .delete, "/a".toList, [], []⟩]⟩
 
-theorem C06_F_headerValue_witness :
-    region wHdrS [⟨"A", []⟩] = "F_headerValue" ∧
-    callModel wHdrI "A" [] = some (.sent ⟨"DELETE", "/a".toList, none, none, [("Accept", "*")], none⟩) ∧
-    callSpec wHdrS "A" [] = some (.sent ⟨"DELETE", "/a".toList, some [], none, [("Accept", "*/*")], none⟩) := by
+theorem C06_headerValue_fixed :
+    region wHdrS [⟨"A", []⟩] = "WF" ∧
+    callModel wHdrI "A" [] = some (.sent ⟨"DELETE", "/a".toList, none, none, [("Accept", "*/*")], none⟩) ∧
+    (callSpec wHdrS "A" []).map (fun o => match o with | .sent r => r.headers | .panic => []) = some [("Accept", "*/*")] := by
+  decide
+
+/-- was F_pathArgBrace (repaired by 0b978c0): `A("{b}", "x")` on `/{a}/{b}` requests `/{b}/x` -/
+def wBraceI : Iface := ⟨[], [⟨"A", "shoot: Get(\"/{a}/{b}\")\n".toList, [pCtx, pStr "a", pStr "b"]⟩]⟩
+def wBraceS : IfaceSpec := ⟨[], [⟨"A", .get, "/{a}/{b}".toList, [], [pCtx, pStr "a", pStr "b"]⟩]⟩
+def wBraceArgs : Args := [("ctx", .ctx "t"), ("a", .scalar (.txt "{b}".toList)), ("b", .scalar (.txt "x".toList))]
+
+theorem C06_pathArgBrace_fixed :
+    region wBraceS [⟨"A", wBraceArgs⟩] = "WF" ∧
+    (callModel wBraceI "A" wBraceArgs).bind Outcome.path? = some "/{b}/x".toList ∧
+    (callSpec wBraceS "A" wBraceArgs).bind Outcome.path? = some "/{b}/x".toList := by
+  decide
+
+/-- was F_structElsewhere (repaired by 05e7f66): a struct type is recognised through go/types wherever
+    it is declared, so the grammar no longer tells the two apart — the same input as a same-file struct -/
+theorem C06_structElsewhere_fixed :
+    let p : Param := ⟨"req", .struct [⟨"Name", true, false, ""⟩, ⟨"N", true, false, ""⟩], false⟩
+    let i : Iface := ⟨[], [⟨"A", "shoot: Get(\"/a\")\n".toList, [pCtx, p]⟩]⟩
+    let s : IfaceSpec := ⟨[], [⟨"A", .get, "/a".toList, [], [pCtx, p]⟩]⟩
+    let args : Args := [("ctx", .ctx "t"), ("req", .struct false [("Name", .txt ['x']), ("N", .txt ['7'])])]
+    region s [⟨"A", args⟩] = "WF" ∧ callModel i "A" args = callSpec s "A" args := by
   decide
 
 /-- Q3: `A(ctx, req *Req)` on GET called with `nil`: panic instead of a request without those fields -/
@@ -388,17 +359,6 @@ theorem C06_F_nilStructDeref_witness :
     region wNilS [⟨"A", wNilArgs⟩] = "F_nilStructDeref" ∧
     callModel wNilI "A" wNilArgs = some .panic ∧
     callSpec wNilS "A" wNilArgs = some (.sent ⟨"GET", "/a".toList, some [], none, [("Accept", "application/json")], some "t"⟩) := by
-  decide
-
-/-- Q4: `//shoot: Get("/{a}/{b}")  A(ctx, a, b string)` called with `a = "{b}"`, `b = "x"` -/
-def wBraceI : Iface := ⟨[], [⟨"A", "shoot: Get(\"/{a}/{b}\")\n".toList, [pCtx, pStr "a", pStr "b"]⟩]⟩
-def wBraceS : IfaceSpec := ⟨[], [⟨"A", .get, "/{a}/{b}".toList, [], [pCtx, pStr "a", pStr "b"]⟩]⟩
-def wBraceArgs : Args := [("ctx", .ctx "t"), ("a", .scalar (.txt "{b}".toList)), ("b", .scalar (.txt "x".toList))]
-
-theorem C06_F_pathArgBrace_witness :
-    region wBraceS [⟨"A", wBraceArgs⟩] = "F_pathArgBrace" ∧
-    (callModel wBraceI "A" wBraceArgs).bind Outcome.path? = some "/x/{b}".toList ∧
-    (callSpec wBraceS "A" wBraceArgs).bind Outcome.path? = some "/{b}/x".toList := by
   decide
 
 end Witnesses
@@ -448,8 +408,8 @@ example : parseHeaders "shoot: headers={Authorization:Bearer abc},\n  {X-Env:tes
     = [("Authorization".toList, "Bearer abc".toList), ("X-Env".toList, "test".toList), ("A".toList, ['1']), ("B".toList, ['2'])] := by decide
 example : hdrIter "\nshoot: Get(/x)\n".toList = none := by decide
 example : parseFieldAlias "x,alias=page_idx;y".toList = "page_idx".toList := by decide
-example : parseKV "{k: */*}".toList = [(['k'], ['*'])] ∧
-    parseKV "x{a-b|c :: v w },{k:}y}".toList = [("a-b|c".toList, "v w ".toList), (['k'], ['y'])] := by decide
+example : parseKV "{k: */*}".toList = [(['k'], "*/*".toList)] ∧
+    parseKV "x{a-b|c : v w },{k:}{q: }y}".toList = [("a-b|c".toList, "v w ".toList), (['q'], [' '])] := by decide
 example : parsePath ("shoot: Get(\"/users/{id}\")\nshoot: alias={userID:id}\n".toList)
     = .ok ⟨.get, "/users/{id}".toList, ["id".toList]⟩ := by decide
 example : parsePath ("shoot: pAtCh(/a b/{x}/{y_1}) ; \n".toList)
